@@ -55,9 +55,12 @@ Proof.
 Qed.
 Print Assumptions C26_zero_iff_success.
 
-(* argument errors (argparse, or -t without -m) give exit code 2, whatever the table *)
+(* argument errors give exit code 2: an argparse error for every table; -t without -m for every table
+   whose argp.error stands before the early return on counted usage errors (part of skel_ok), so
+   whatever else is wrong with the call *)
 Theorem C26_argument_errors (sk : skel) (f : facts) :
-  f_argparse f = AError \/ (f_argparse f = AOk /\ f_target f <> TNone /\ f_models f = []) ->
+  f_argparse f = AError \/
+  (k_combo_first sk = true /\ f_argparse f = AOk /\ f_target f <> TNone /\ f_models f = []) ->
   main_with sk f = Exit 2.
 Proof. exact (argparse_two sk f). Qed.
 Print Assumptions C26_argument_errors.
